@@ -359,6 +359,9 @@ func (n *nut) stop() {
 			return count(evs, 0, func(e ev) bool { return e.kind == "close" }) >= 1
 		})
 		n.pm.Stop()
+		// the loops are gone, but inserts the queue timer already started (go pm.insertBlock) may still run:
+		// the database must not be closed under them
+		n.waitSettled("stop")
 	}
 	n.bc.Stop()
 	close(n.r.stop)
